@@ -1359,7 +1359,13 @@ func (w *voWorld) waitReady(s *Store) {
 		panic("verif: no leader: " + err.Error())
 	}
 	deadline := time.Now().Add(20 * time.Second)
-	for s.raft.AppliedIndex() < s.raft.LastIndex() || s.raft.State() != raft.Leader {
+	// the node is leader, the no-op entry of its term is in the log (the last entry's term is the
+	// current term), and everything in the log has been handed to the FSM goroutine
+	caughtUp := func() bool {
+		st := s.raft.Stats()
+		return s.raft.State() == raft.Leader && st["last_log_term"] == st["term"] && s.raft.AppliedIndex() >= s.raft.LastIndex()
+	}
+	for !caughtUp() {
 		if time.Now().After(deadline) {
 			panic("verif: the node does not catch up with its own log")
 		}
